@@ -63,9 +63,13 @@ def main(ctx, replay=None):
         nsets = 2 if ctx.tier == "quick" else 20
         for n in range(nsets):
             settings = {"NT": int(rng.integers(3, 7)), "DT": float(rng.choice([100, 62.5, 250])), "T_MIN": float(rng.choice([0, 150, 300])),
-                        "NTV": int(rng.integers(6, 12))}
+                        "NTV": int(rng.integers(7, 12))}
             # QHA's own sampling steps (multiples of the grid steps) must not thin out cij's tables: all NT rows, all NTV columns
             settings["DT_SAMPLE"] = settings["DT"] * int(rng.choice([1, 2, 3]))
+            if n % 4 == 1:
+                settings["NT"] = settings["NTV"]                  # square tables: a transposed table has the right shape
+            elif n % 4 == 3:
+                settings["NT"] = settings["NTV"] - 4              # (QHA's internal temperature grid has four extra rows)
             ds = free_dataset(rng, extra_shear=int(rng.integers(0, 5)), settings=settings) if n % 2 == 0 else \
                 system_dataset(rng, exports, str(rng.choice(fillspec.SYSTEMS[1:])), settings=settings)
             d = wd.sub(f"set{n}")
@@ -127,6 +131,18 @@ def main(ctx, replay=None):
                         ctx.violation(f"{fn} (keyword '{r['kw']}'): {bad}", {**case, "file": fn}, {**sig, "clause": "content"})
                         break
                 per_rule.setdefault((r["rule"], r["base"]), []).append((r["kw"], content))
+                # writing the same keyword again into the same directory replaces the files: same names, same bytes
+                if content and len(content) == len(expect):
+                    with cwd(out):
+                        try:
+                            ResultsWriter(b).write(r["kw"])
+                        except Exception as ex:
+                            ctx.violation(f"second write('{r['kw']}') on base {r['base']} raised {ex!r}", case, {**sig, "clause": "raises"})
+                            continue
+                    again = {p.name: p.read_bytes() for p in out.iterdir()}
+                    if again != content:
+                        ctx.violation(f"writing '{r['kw']}' (base {r['base']}) a second time into the same directory changes the files "
+                                      f"({sorted(set(again) ^ set(content)) or 'content differs'})", case, {**sig, "clause": "rewrite"})
             # aliases of one rule produce identical content
             for (rule, base), lst in per_rule.items():
                 for kw, content in lst[1:]:
